@@ -84,7 +84,9 @@ def _case(check: Check, cfg, record=False):
                 sample=cfg, record=record)
     # ground companion (NOT solver-decided): the same policy oracle natively through what a symbolic tag cannot enter -
     # sparse output (pandas materializer) and the narwhals materializer (numpy / sparse output; narwhals frames have no index)
-    if cfg["output"] == "pandas" or check.tier == "thorough":
+    import zlib
+
+    if (cfg["output"] == "pandas" and check.tier != "thorough") or (check.tier == "thorough" and zlib.crc32(repr(sorted(cfg.items())).encode()) % 8 == 0):
         for extra in ({"output": "sparse"}, {"output": "numpy", "materializer": "narwhals"}, {"output": "sparse", "materializer": "narwhals"}):
             c2 = {**cfg, **extra}
             p = {"kind": "c06_config", "cfg": c2, "tag": None}
